@@ -100,7 +100,9 @@ EqLines(q, ch, i) ==
     THEN << "    " \o Quote(q.desc) \o TText(q.lhs, ch) \o EqSign(ch) \o "(" \o TText(q.rhs[2], ch) \o "+<cst>);" \o Cmt(ch, i) >>
     ELSE IF q.fac = "if" /\ UseIf(ch)
     THEN << "    " \o Quote(q.desc) \o TText(q.lhs, ch) \o EqSign(ch) \o "(" \o TText(q.rhs[2], ch) \o "+",
-            "        !if flag !then " \o TText(IF q.rhs[3] = N(2) THEN N(1) ELSE q.rhs[3], ch) \o " !else " \o (IF q.rhs[3] = N(2) THEN "2" ELSE "7") \o " !end );" >>
+            \* (with everything factored, an !if without !else precedes its sibling with !else)
+            "        " \o (IF ch.fac = "all" THEN "!if True !then 0+ !end " ELSE "")
+            \o "!if flag !then " \o TText(IF q.rhs[3] = N(2) THEN N(1) ELSE q.rhs[3], ch) \o " !else " \o (IF q.rhs[3] = N(2) THEN "2" ELSE "7") \o " !end );" >>
     ELSE IF ch.cm = 2
     THEN << "    " \o Quote(q.desc) \o TText(q.lhs, ch) \o " ...", "        " \o EqSign(ch) \o " " \o TText(q.rhs, ch) \o " ... continued",
             "        " \o (IF q.hasSteady THEN "!!" \o ch.sp \o TText(q.slhs, ch) \o EqSign(ch) \o TText(q.srhs, ch) ELSE "") \o ";" >>
